@@ -78,7 +78,7 @@ PROPS = {
              [], extra_modules=(('Pipeline', r'doc_sourcepos_spec|sourceposAttrs_eq|sourceposNode_total'),)),
     'C16': P('C16', [('codepair', 15000, 120000), ('block', 6000, 48000), ('inline', 5000, 40000), ('html', 6000, 48000), ('blockh', 2500, 20000), ('inlineh', 2500, 20000)], ('C16', 12500, 100000),
              "oracle: dual-run look-ahead probe (hook) over all generators x configurations (+ custom rules), HTML with probe on = HTML with probe off, custom block rule in both look-ahead styles after every predecessor kind",
-             [], extra_modules=('C16Doc', 'GenHtml', ('InlineH', r'silent|calm|window|ruleAtH_html'), ('BlockH', r'silent|true_real'), ('Html', r'silent'), ('Block', r'silent|testRules|real_false'), ('Inline', r'silent|skip|memo|ruleEmph'),)),
+             [], extra_modules=('C16Block', 'C16Doc', 'GenHtml', ('InlineH', r'silent|calm|window|ruleAtH_html'), ('BlockH', r'silent|true_real'), ('Html', r'silent'), ('Block', r'silent|testRules|real_false'), ('Inline', r'silent|skip|memo|ruleEmph'),)),
     'C17': P('C17', [('url', 20000, 160000)], ('C17', 20000, 160000),
              "url stream: byte strings biased to '%' near the end, hex/non-hex after '%', bytes >= 0x80, 8 safe-set families, both modes; non-trivial = contains a byte >= 0x80 or a '%' within the last three bytes; distinct by hash of the request line",
              ["bytes are modelled as Nat < 256 (hypothesis `Bytes bs`)",
